@@ -82,6 +82,58 @@ def init : St := { pos := 0, carry := [], finished := false }
 def readAll (F : Fmt) (newRule : Bool) (mode : Mode) (file : Bytes) (k : Nat) : List Bytes :=
   readLoop F newRule mode file k (file.length + 2) init
 
+/-! ### the `max_chunk_size` keyword: `read_chunk(min_chunk_size=k, max_chunk_size=cap)` raises
+"No complete entry found" as soon as the pending bytes exceed `cap` (checked after every raw read,
+before the completeness test) -/
+
+inductive Res (α : Type) | ok (a : α) | stop | err
+deriving Repr
+
+def accumulateCap (F : Fmt) (newRule : Bool) (file : Bytes) (k cap : Nat) :
+    Nat → Nat → Bytes → Bool → Res (Bytes × Nat × Bool)
+  | 0, _, _, _ => .stop
+  | fuel+1, pos, acc, finPrev =>
+    let raw := (file.drop pos).take k
+    let fin := decide (raw.length < k)
+    if raw.length = 0 then
+      if newRule && !acc.isEmpty && !finPrev then
+        let acc' := fixEnd F acc
+        if acc'.length > cap then .err
+        else if F.complete acc' then .ok (acc', pos, true) else .stop
+      else .stop
+    else
+      let acc' := acc ++ (if fin then fixEnd F raw else raw)
+      if acc'.length > cap then .err
+      else if F.complete acc' then .ok (acc', pos + raw.length, fin)
+      else accumulateCap F newRule file k cap fuel (pos + raw.length) acc' fin
+
+def readChunkCap (F : Fmt) (newRule : Bool) (mode : Mode) (file : Bytes) (k cap : Nat) (s : St) :
+    Res (Bytes × St) :=
+  match accumulateCap F newRule file k cap (file.length + 2) s.pos s.carry s.finished with
+  | .stop => .stop
+  | .err => .err
+  | .ok (chunk, pos', fin) =>
+    let n := F.cutLen chunk
+    let s' : St :=
+      if fin then { pos := pos', carry := [], finished := true }
+      else match mode with
+        | .seek => { pos := pos' - (chunk.length - n), carry := [], finished := false }
+        | .carry => { pos := pos', carry := chunk.drop n, finished := false }
+    .ok (chunk.take n, s')
+
+/-- `read_chunks(min_chunk_size=k, max_chunk_size=cap)` consumed to the end: `none` = it raised -/
+def readLoopCap (F : Fmt) (newRule : Bool) (mode : Mode) (file : Bytes) (k cap : Nat) : Nat → St → Option (List Bytes)
+  | 0, _ => some []
+  | fuel+1, s =>
+    match readChunkCap F newRule mode file k cap s with
+    | .stop => some []
+    | .err => none
+    | .ok (out, s') =>
+      if out.isEmpty then some [] else (readLoopCap F newRule mode file k cap fuel s').map (out :: ·)
+
+def readAllCap (F : Fmt) (newRule : Bool) (mode : Mode) (file : Bytes) (k cap : Nat) : Option (List Bytes) :=
+  readLoopCap F newRule mode file k cap (file.length + 2) init
+
 /-- `NumpyFileReader.read()`: the whole file at once -/
 def readWhole (F : Fmt) (file : Bytes) : Bytes :=
   if file.isEmpty then [] else
